@@ -39,6 +39,31 @@ var reviewedPlainOps = map[string]string{
 	"(*leveldb.session).refLoop|send|?":                        "reply on the test-only fileRefCh request channel",
 }
 
+// helperOfReviewed: fn performs a plain blocking op that is not reviewed for fn itself. If every
+// caller of fn (resolved call graph, at least one) has a reviewed row for the same op and channel,
+// the rows are returned: the rendezvous argument is the caller's, the helper only hosts the
+// instruction.
+func helperOfReviewed(p *Prog, fn *ssa.Function, kind, ch string) []string {
+	n := p.CG().Nodes[fn]
+	if n == nil || len(n.In) == 0 {
+		return nil
+	}
+	var rows []string
+	seen := map[string]bool{}
+	for _, e := range n.In {
+		k := fnName(e.Caller.Func) + "|" + kind + "|" + ch
+		if _, ok := reviewedPlainOps[k]; !ok {
+			return nil
+		}
+		if !seen[k] {
+			seen[k] = true
+			rows = append(rows, k)
+		}
+	}
+	sort.Strings(rows)
+	return rows
+}
+
 func runC09(p *Prog, r *Report) {
 	if want("C09.1") {
 		ruleTokenContracts(p, r, "C09.1", 12)
@@ -408,6 +433,13 @@ func ruleChanInventory(p *Prog, r *Report, rule string) {
 				if why, ok := reviewedPlainOps[op.key]; ok {
 					seenReviewed[op.key] = true
 					r.OK(fnName(fn), op.kind+":"+op.chans[0], "reviewed rendezvous: "+why)
+				} else if rows := helperOfReviewed(p, fn, op.kind, op.chans[0]); len(rows) > 0 {
+					// the operation was extracted into a helper called only from functions
+					// reviewed for this very rendezvous
+					for _, k := range rows {
+						seenReviewed[k] = true
+					}
+					r.OK(fnName(fn), op.kind+":"+op.chans[0], "reviewed rendezvous, extracted into a helper of "+strings.Join(rows, ", "))
 				} else {
 					r.Fail(fnName(fn), "unreviewed-blocking-"+op.kind+":"+op.chans[0], "every plain blocking send/receive is a reviewed rendezvous", fmt.Sprintf("plain blocking %s on %s at %s is not in the reviewed table (no closeC alternative)", op.kind, op.chans[0], pos), pos, nil)
 				}
